@@ -37,7 +37,9 @@ LENGTH = {"quick": {"default": 4, "ipaddr-or-hostname": 5, "port-number": 5, "by
 
 EXTRA = {
     "boolean": ["yes", "YES", "Yes", "true", "True", "on", "ON", "no", "No", "false", "FALSE", "off", "Off", "", "y", "1", "0", "t",
-                "yes ", " yes", "oN", "of", "onn", "truе", "ＴＲＵＥ", "nO", "İ", "ON\n"],
+                "yes ", " yes", "oN", "of", "onn", "truе", "ＴＲＵＥ", "nO", "İ", "ON\n",
+                # characters whose full case FOLDING (not lower-casing) is ASCII: ligatures, long s, Kelvin sign
+                "o\ufb00", "O\ufb00", "fal\u017fe", "ye\u017f", "YE\u017f", "\ufb00", "o\ufb01", "tr\u00b5e", "\u212an", "no\u0345", "ON\u0307"],
     "ipaddr-or-hostname": ["fe80::1", "abcd::", "::1", "::", "1::", "2001:db8::1", "::ffff:1.2.3.4", "1.2.3.4", "256.1.1.1", "1.2.3",
                            "01.2.3.4", "١.١.١.١", "a", "ab", "a.b", "a.", "Host.Example", "_x", "-x", "x-", "1:2:3:4:5:6:7:8",
                            "1:2:3:4:5:6:7:8:9", "12345::", "::g", "fe80::1%eth0", "[::1]", "a:b", "dead:beef::", "FE80::1",
